@@ -8,7 +8,11 @@ import json
 
 CACHE_HIT_NS = 100
 REJECTED = 0b101111
-ECANCELED, EINVAL, EBADF, ENOENT = -125, -22, -9, -2
+ECANCELED, EINVAL, EBADF, ENOENT, ENOSPC = -125, -22, -9, -2, -28
+
+
+def cfg_capacity(case):
+    return case["cfg"].get("capacity")
 
 
 def pow2ceil(n):
@@ -196,7 +200,8 @@ def to_model(case, obs):
             pass
         else:
             problems.append("unknown command %s" % n)
-    term = "crun %d [%s]" % (cfg.get("nfiles", 1), "; ".join(evs))
+    cap = cfg.get("capacity")
+    term = "crun %d %s [%s]" % (cfg.get("nfiles", 1), "None" if cap is None else "(Some %d)" % cap, "; ".join(evs))
     return term, probes, problems
 
 
@@ -245,6 +250,8 @@ def compare(case, obs, model, probes):
             m = o[0] if isinstance(o, list) else o
             if m == "PermissionDenied":
                 m = [-13, []]
+            if m == "Other" and cfg_capacity(case) is not None:
+                m = [ENOSPC, []]            # io::Error::other("No space left on device")
             if not isinstance(m, list):
                 return "%s: synchronous API returned %s, model (%s,%s)" % (where, m, ints[0], list(data))
             if m[0] != ints[0] or list(m[1]) != list(data):
@@ -409,6 +416,9 @@ def oracle(case, obs):
                         fail("cmd %d: ring %s returned %d, the synchronous API returns %d" % (ci, e["op"][0], res, twin[0]))
                     if e["op"][0] == "read" and data is not None and list(data) != list(twin[1]):
                         fail("cmd %d: ring read put %s into the buffer, the synchronous API %s" % (ci, data, twin[1]))
+                elif twin == "Other" and cfg.get("capacity") is not None:
+                    if res != ENOSPC:
+                        fail("cmd %d: ring %s completed with %d; the synchronous API refuses it for lack of space (capacity %d), expected -ENOSPC" % (ci, e["op"][0], res, cfg["capacity"]))
                 elif isinstance(twin, str) and twin not in ("ambiguous", "none"):
                     fail("cmd %d: ring %s returned %d, the synchronous API fails with %s" % (ci, e["op"][0], res, twin))
         elif n == "crash":
@@ -482,6 +492,8 @@ def gen_direct(rng, size=None, flavour=None):
         cache = {"page_size": rng.choice([4, 8, 4096]), "max_pages": rng.choice([1, 2, 3, 8])}
     nfiles = rng.choice([1, 1, 2])
     cfg = {"mode": "direct", "seed": rng.randrange(1 << 30), "lat_ns": lat, "cache": cache, "nfiles": nfiles}
+    if rng.random() < 0.15:
+        cfg["capacity"] = rng.choice([4, 8, 12, 20, 40])
     L = lat or 0
     s = []
     now = 0
@@ -679,6 +691,72 @@ def gen_dup(rng):
         s += [["cq_new", 0], ["sync", 0]] + [["next", 0]] * 14
     s.append(["dump", 0])
     return {"cfg": cfg, "script": s, "flavour": "dup", "full_drain": True}
+
+
+def gen_capacity(rng):
+    """Finite disk: writes that start at, before and beyond the end of file (the zero-filled gap is
+    charged), through the ring and through the synchronous API, with fsyncs in between (they change
+    what Fs::used_bytes charges) and a crash; drained completely."""
+    L = rng.choice([0, 100, 100])
+    cap = rng.choice([6, 8, 10, 16, 24])
+    nfiles = rng.choice([1, 2])
+    cfg = {"mode": "direct", "seed": rng.randrange(1 << 30), "lat_ns": L, "cache": None, "nfiles": nfiles, "capacity": cap}
+    s = [["open", 0], ["new", 8]]
+    nfd = 1
+    if nfiles == 2:
+        s.append(["open", 1])
+        nfd = 2
+    now = 0
+    ud = 10
+    for _ in range(rng.randrange(3, 9)):
+        burst = rng.choice([1, 1, 2, 3])
+        for _ in range(burst):
+            ud += 1
+            k = rng.randrange(nfd)
+            x = rng.random()
+            if x < 0.7:
+                off = rng.choice([0, 1, 2, 3, 5, 8, 12, cap - 1, cap, cap + 3])
+                data = [rng.randrange(1, 250) for _ in range(rng.choice([0, 1, 1, 2, 3, 4]))]
+                if rng.random() < 0.25:
+                    s.append(["swrite", k, off, data])
+                    continue
+                s.append(["push", 0, ["write", k, off, data], ud, 0])
+            elif x < 0.85:
+                s.append(["push", 0, ["fsync", k], ud, 0])
+            else:
+                s.append(["push", 0, ["read", k, 0, 8], ud, 0])
+        s.append(["submit", 0, 0])
+        now += L
+        s += [["now", now], ["cq_new", 0], ["sync", 0]] + [["next", 0]] * (burst + 1)
+        y = rng.random()
+        if y < 0.15:
+            s.append(["ssync", rng.randrange(nfd)])
+        elif y < 0.2:
+            s.append(["crash"])
+            s += [["open", f] for f in range(nfiles)]
+            s.append(["new", 8])
+            # descriptors and ring numbers continue after the crash
+            return _capacity_tail(rng, s, cfg, now, L, ud, nfd, nfiles, cap)
+        if rng.random() < 0.3:
+            s.append(["dump", rng.randrange(nfiles)])
+    for f in range(nfiles):
+        s.append(["dump", f])
+    return {"cfg": cfg, "script": s, "flavour": "capacity", "full_drain": True}
+
+
+def _capacity_tail(rng, s, cfg, now, L, ud, nfd, nfiles, cap):
+    base = nfd
+    for _ in range(rng.randrange(1, 4)):
+        ud += 1
+        k = base + rng.randrange(nfiles)
+        off = rng.choice([0, 2, 5, cap - 1, cap + 2])
+        s.append(["push", 1, ["write", k, off, [rng.randrange(1, 250) for _ in range(rng.choice([1, 2, 4]))]], ud, 0])
+        s.append(["submit", 1, 0])
+        now += L
+        s += [["now", now], ["cq_new", 1], ["sync", 1], ["next", 1], ["next", 1]]
+    for f in range(nfiles):
+        s.append(["dump", f])
+    return {"cfg": cfg, "script": s, "flavour": "capacity", "full_drain": False}
 
 
 def gen_cache(rng):
